@@ -229,13 +229,19 @@ def rule_pair(ctx) -> RuleResult:
                 continue
             if key in fields:
                 continue
+            # what the workspace remembers about the REQUEST made to the method that binds the handle (the mode the handle is
+            # opened with, stored in a field): it may restrict the flush in the read-only direction only - the obligations
+            # below are stated for a workspace that was not asked for 'r'
+            if not key.endswith("()") and key not in requests and _request_field(ctx, ws_cls, name):
+                requests.add(key)
+                continue
+            if key in requests:
+                continue
             m = self_field_meaning(ctx.p, ws_cls, name, sn)
             if m is None:
                 continue
             fields[key] = m[0]
-            # what the workspace remembers about the REQUEST made to the method that binds the handle (a parameter that the
-            # handle is opened with, stored in a field): it may restrict the flush in the read-only direction only - the
-            # obligations below are stated for a workspace that was not asked for 'r'
+            # ... or a value computed from such a parameter and cached
             asked = _opened_with(ctx.view(m[1]))
             for x in ast.walk(m[0]):
                 if isinstance(x, ast.Name) and x.id.endswith("@" + m[1].name) and x.id.split("@")[0] in asked:
@@ -299,10 +305,9 @@ def rule_pair(ctx) -> RuleResult:
     return res
 
 
-def _opened_with(fn) -> set:
-    """Parameters of `fn` that the handle it binds into the gateway field is opened with: names among the arguments of the
-    call whose result is stored in `self._geoh5`, directly or through a local (`fn`: a normalised view, so that a helper doing
-    the binding is seen; aliases expanded)."""
+def _acquisition_args(fn) -> list:
+    """Alias-expanded argument expressions of the call(s) whose result `fn` stores in the gateway field `self._geoh5`, directly or
+    through a local (`fn`: a normalised view, so that a helper that opens the file or does the binding is seen)."""
     stored = [x.value for x in ast.walk(fn.node) if isinstance(x, (ast.Assign, ast.AnnAssign)) and x.value is not None and _is_gateway(fn, _target(x))]
     values = []
     for v in stored:
@@ -310,13 +315,68 @@ def _opened_with(fn) -> set:
             values += [x.value for x in ast.walk(fn.node) if isinstance(x, (ast.Assign, ast.AnnAssign)) and x.value is not None and isinstance(_target(x), ast.Name) and _target(x).id == v.id]
         else:
             values.append(v)
-    names = set()
     facts = Facts(fn.node)
+    out = []
     for v in values:
-        for c in ast.walk(facts.x(v)):
+        for c in ast.walk(v):
             if isinstance(c, ast.Call):
-                names |= {a.id for arg in list(c.args) + [k.value for k in c.keywords] for a in ast.walk(arg) if isinstance(a, ast.Name)}
-    return names & set(fn.params)
+                out += [facts.x(arg) for arg in list(c.args) + [k.value for k in c.keywords]]
+    return out
+
+
+def _opened_with(fn) -> set:
+    """Parameters of `fn` that the handle it binds into the gateway field is opened with."""
+    return {a.id for arg in _acquisition_args(fn) for a in ast.walk(arg) if isinstance(a, ast.Name)} & set(fn.params)
+
+
+def _stores_field(fi, field):
+    """Values stored into `self.<field>` by the function (its own statements)."""
+    sn = fi.self_name
+    if sn is None:
+        return []
+    out = []
+    for x in ast.walk(fi.node):
+        if isinstance(x, (ast.Assign, ast.AnnAssign)) and x.value is not None:
+            tgs = x.targets if isinstance(x, ast.Assign) else [x.target]
+            if any(isinstance(t, ast.Attribute) and t.attr == field and isinstance(t.value, ast.Name) and t.value.id == sn for t in tgs):
+                out.append(x.value)
+    return out
+
+
+def _request_field(ctx, cls, field) -> bool:
+    """`self.<field>` remembers what the handle was asked to be opened with: wherever the class stores it (the constant default
+    of __init__ aside), the stored value is - modulo local aliases, in the normalised view of the method that binds the
+    handle - one of the non-constant arguments of the call whose result that method puts in the gateway field (the requested
+    mode, read into a local first or not, stored before or after the bind, in the method or in a helper it calls)."""
+    members = list(cls.methods.values()) + [f for q in cls.props.values() for f in (q.getter, q.setter) if f is not None]
+    sites = [fi for fi in members if any(not (fi.name == "__init__" and isinstance(v, ast.Constant)) for v in _stores_field(fi, field))]
+    if not sites:
+        return False
+    site_names = {fi.name for fi in sites}
+    binders = []
+    for fi in members:
+        if fi.self_name is None:
+            continue
+        calls_site = any(isinstance(c, ast.Call) and isinstance(c.func, ast.Attribute) and c.func.attr in site_names for c in ast.walk(fi.node))
+        if fi.name not in site_names and not calls_site:
+            continue
+        v = ctx.view(fi)
+        stored = [x for x in _stores_field(v, field) if not (fi.name == "__init__" and isinstance(x, ast.Constant))]
+        opened = {unparse(a) for a in _acquisition_args(v) if not isinstance(a, ast.Constant)}
+        if not stored or not opened:
+            continue
+        facts = Facts(v.node)
+        if not all(facts.text(x) in opened for x in stored):
+            return False
+        binders.append(fi)
+    if not binders:
+        return False
+    for s_ in sites:
+        if any(b is s_ for b in binders):
+            continue
+        if not any(isinstance(c, ast.Call) and isinstance(c.func, ast.Attribute) and c.func.attr == s_.name for b in binders for c in ast.walk(b.node)):
+            return False
+    return True
 
 
 def _is_concatenated_flush(c) -> bool:
